@@ -238,7 +238,21 @@ func mapRangeOrderInsensitive(c *Check, fn *ssa.Function, rng *ssa.Range) (bool,
 					if f := c.P.resolveCallee(&call.Call); f != nil && strings.HasPrefix(funcName(f), "sort.") {
 						for _, a := range call.Call.Args {
 							if strings.Contains(x.E(a).String(), "append(") || phiFedByAppend(a, blocks, 0) {
-								sorted = true
+								// the sort must happen on every path to every return after the loop
+								all := true
+								for _, rb := range fn.Blocks {
+									if blocks[rb] || len(rb.Instrs) == 0 {
+										continue
+									}
+									if _, isRet := rb.Instrs[len(rb.Instrs)-1].(*ssa.Return); isRet && fn.Recover != rb {
+										if !(b == rb || b.Dominates(rb)) && reachableFromLoop(blocks, rb) {
+											all = false
+										}
+									}
+								}
+								if all {
+									sorted = true
+								}
 							}
 						}
 					}
@@ -250,6 +264,29 @@ func mapRangeOrderInsensitive(c *Check, fn *ssa.Function, rng *ssa.Range) (bool,
 		}
 	}
 	return true, ""
+}
+
+// reachableFromLoop: rb is reachable from some loop block (i.e. lies after the loop).
+func reachableFromLoop(blocks map[*ssa.BasicBlock]bool, rb *ssa.BasicBlock) bool {
+	seen := map[*ssa.BasicBlock]bool{}
+	var st []*ssa.BasicBlock
+	for b := range blocks {
+		st = append(st, b)
+	}
+	for len(st) > 0 {
+		x := st[len(st)-1]
+		st = st[:len(st)-1]
+		for _, s := range x.Succs {
+			if s == rb {
+				return true
+			}
+			if !seen[s] {
+				seen[s] = true
+				st = append(st, s)
+			}
+		}
+	}
+	return false
 }
 
 // phiFedByAppend: v (through conversions and phis) is fed by an append call located in the loop blocks.
